@@ -442,7 +442,7 @@ def main(ck):
           softfail('depth %.17g exceeds the overlap width %.17g along the reported normal' % (-dmin, w),
                    'normal:%s-%s' % pair)
         if w + dmin > 0.02 * sc + tdist:
-          hard('normal direction: overlap width along the reported normal %.17g but dist %.17g' % (w, dmin),
+          softfail('normal direction: overlap width along the reported normal %.17g but dist %.17g' % (w, dmin),
                'normal:%s-%s' % pair)
         if dtrue is None:
           wmin, nb = gr.penetration_depth_sampled(S1, S2, 400, True, extra=[n])
